@@ -443,8 +443,14 @@ pub mod tt {
             0 => 100 + (probe % 2) as u64,
             // coarse: every delta a multiple of 100, large variations
             1 => 100 * (1 + (probe * probe) % 7) as u64 + 100 * ((probe % 3) as u64) * 7,
-            // stuck: constant delta
-            _ => 137,
+            // stuck: constant delta for 262 counted probes (threshold 270), then varied
+            _ => {
+                if probe < 362 {
+                    137
+                } else {
+                    1000 + 37 * ((probe * probe) % 11) as u64 + (probe % 2) as u64
+                }
+            }
         };
         match phase {
             0 => base,
@@ -521,14 +527,14 @@ pub mod tt {
         verdict(res);
     }
 
-    /// Quick-tier variants (bound: the first 360 probes follow a fixed
+    /// Quick-tier variants (bound: the first 376 probes follow a fixed
     /// pattern - tiny variations / coarse / stuck - chosen so that the
-    /// accumulators sit just below the decision thresholds, the last 40 probes
+    /// accumulators sit just below the decision thresholds, the last 24 probes
     /// and the priming reading are fully symbolic).
     #[allow(static_mut_refs)]
     fn with_prefix(pat: u8) {
         unsafe {
-            PREFIX = 360;
+            PREFIX = 376;
             PAT = pat;
         }
         let mut r: Rng = JitterRng::new_with_timer(model_timer as Tm);
